@@ -321,7 +321,7 @@ fn do_pull<P: Piece>(
         return Err((
             "structure".into(),
             format!(
-                "step {step}: {name} yielded piece {i} = {} but Piecewise::integral has {} (the iterators and the batch result must be identical)",
+                "step {step}: {name} yielded piece {i} = {} but a fresh, fully collected iterator of the same kind yields {} (what an iterator yields must not depend on how it is pulled, on other live iterators or on earlier ones)",
                 fmt_seg(&out),
                 fmt_seg(&c.segments[i])
             ),
@@ -357,6 +357,42 @@ where
     };
     let mut dig = Digest::new();
 
+    // ---- reference sequences: each iterator kind, fresh and fully collected, nothing else alive --------
+    macro_rules! collect_ref {
+        ($make:expr, $name:expr) => {{
+            let m = Meter::default();
+            match guard(|| {
+                let it = $make(m.clone());
+                it.collect::<Vec<Segment<T::IntegralOf>>>()
+            }) {
+                Ok(v) => {
+                    if v.len() != n {
+                        return IRes::Violation("structure".into(), format!("{} yielded {} pieces for {n} input segments", $name, v.len()));
+                    }
+                    Piecewise { segments: v }
+                }
+                Err(p) => return IRes::Violation("panic".into(), format!("collecting {} panicked: {p}", $name)),
+            }
+        }};
+    }
+    let by_value_src = Rc::new(f.segments.clone());
+    let ref_a = collect_ref!(|m: Meter| Segment::integral_iter(ByValue { segs: by_value_src.clone(), m }, k0), "integral_iter (by value)");
+    let ref_b = collect_ref!(|m: Meter| Segment::integral_iter_ref(ByRef { segs: &f.segments[..], m }, k0), "integral_iter_ref (by reference)");
+    let ref_x = collect_ref!(|m: Meter| Segment::integral_iter_ref(ByRef { segs: &f.segments[..], m }, k1), "integral_iter_ref (by reference)");
+    for i in 0..n {
+        // the property's own sentence: by-value and by-reference iterators produce identical pieces
+        if seg_bits(&ref_a.segments[i]) != seg_bits(&ref_b.segments[i]) {
+            return IRes::Violation(
+                "structure".into(),
+                format!(
+                    "piece {i}: integral_iter (by value) yields {} but integral_iter_ref (by reference) yields {}",
+                    fmt_seg(&ref_a.segments[i]),
+                    fmt_seg(&ref_b.segments[i])
+                ),
+            );
+        }
+    }
+
     // ---- structure of the batch results -------------------------------------------------
     for (name, r) in [("integral(k0)", &c), ("indefinite()", &d)] {
         if r.segments.len() != n {
@@ -386,7 +422,8 @@ where
         Ok(s) => s,
         Err(p) => return IRes::Violation("panic".into(), format!("Segment::indefinite panicked: {p}")),
     };
-    if seg_bits(&d0) != seg_bits(&d.segments[0]) {
+    let same_numbers = |a: &[u64], b: &[u64]| a.len() == b.len() && a.iter().zip(b).all(|(x, y)| f64::from_bits(*x) == f64::from_bits(*y));
+    if !same_numbers(&seg_bits(&d0), &seg_bits(&d.segments[0])) {
         return IRes::Violation(
             "structure".into(),
             format!("indefinite(): first piece {} differs from the first segment's own indefinite() {}", fmt_seg(&d.segments[0]), fmt_seg(&d0)),
@@ -467,7 +504,7 @@ where
         match ev {
             IEv::PullX => {
                 let r = match itx.as_deref_mut() {
-                    Some(it) => do_pull(it, "integral_iter_ref (third iterator, other knot)", &mx, &mut nx, step, scn, &cx, cov),
+                    Some(it) => do_pull(it, "integral_iter_ref (third iterator, other knot)", &mx, &mut nx, step, scn, &ref_x, cov),
                     None => Ok(false),
                 };
                 match r {
@@ -486,12 +523,12 @@ where
             IEv::PullA | IEv::PullB => {
                 let r = if is_a {
                     match ita.as_deref_mut() {
-                        Some(it) => do_pull(it, "integral_iter (by value)", &ma, &mut na, step, scn, &c, cov),
+                        Some(it) => do_pull(it, "integral_iter (by value)", &ma, &mut na, step, scn, &ref_a, cov),
                         None => Ok(false),
                     }
                 } else {
                     match itb.as_deref_mut() {
-                        Some(it) => do_pull(it, "integral_iter_ref (by reference)", &mb, &mut nb, step, scn, &c, cov),
+                        Some(it) => do_pull(it, "integral_iter_ref (by reference)", &mb, &mut nb, step, scn, &ref_b, cov),
                         None => Ok(false),
                     }
                 };
@@ -599,14 +636,15 @@ where
                 format!("batch {bi}: consuming {name} with {mode:?} produced {} pieces where {due} were due", vals.len()),
             );
         }
+        let reference = if by_value { &ref_a } else { &ref_b };
         for (i, s) in &vals {
-            if *i >= n || seg_bits(s) != seg_bits(&c.segments[*i]) {
+            if *i >= n || seg_bits(s) != seg_bits(&reference.segments[*i]) {
                 return IRes::Violation(
                     "structure".into(),
                     format!(
-                        "batch {bi}: consuming {name} with {mode:?} yielded {} as piece {i}; Piecewise::integral has {}",
+                        "batch {bi}: consuming {name} with {mode:?} yielded {} as piece {i}; plain next() on a fresh iterator of the same kind yields {}",
                         fmt_seg(s),
-                        c.segments.get(*i).map(fmt_seg).unwrap_or_default()
+                        reference.segments.get(*i).map(fmt_seg).unwrap_or_default()
                     ),
                 );
             }
@@ -626,6 +664,39 @@ where
         return IRes::Discard;
     }
     let chain_d = Chain::build(kind, &scn.ends, &scn.coefs, (scn.ends[0], d_anchor));
+    // The iterators and the batch results describe the same function: compared BY VALUE (each is within
+    // its tolerance of the exact integral, so they are within twice that of each other). Bit-identity of
+    // `Piecewise::integral` with the iterators is not demanded: the property does not state it.
+    let chain_x = Chain::build(kind, &scn.ends, &scn.coefs, scn.knot2);
+    for (name, seq, batch, chain, anchor) in [
+        ("integral_iter / integral_iter_ref", &ref_a, &c, &chain_c, scn.knot.0),
+        ("integral_iter_ref from the third iterator's knot", &ref_x, &cx, &chain_x, scn.knot2.0),
+    ] {
+        for i in 0..n {
+            for t in [if i == 0 { anchor } else { scn.ends[i - 1] }, scn.ends[i]] {
+                let (e, tol) = chain.expected(kind, &scn.coefs, i, t);
+                if !e.is_finite() || !tol.is_finite() {
+                    return IRes::Discard;
+                }
+                let pair = guard(|| (seq.segments[i].evaluate(t), batch.segments[i].evaluate(t)));
+                let (a, b) = match pair {
+                    Ok(p) => p,
+                    Err(p) => return IRes::Violation("panic".into(), format!("evaluating piece {i} at {t:e} panicked: {p}")),
+                };
+                cov.hit("value_checks");
+                if !((a - b).abs() <= 2.0 * tol) {
+                    return IRes::Violation(
+                        "tolerance".into(),
+                        format!(
+                            "piece {i} at t={t:e}: {name} gives {a:e} but Piecewise::integral gives {b:e} (exact {:e}); they differ by {:e}, more than twice the tolerance {tol:e}",
+                            e.hi,
+                            (a - b).abs()
+                        ),
+                    );
+                }
+            }
+        }
+    }
     let in_first = n == 1 || scn.knot.0 < scn.ends[0];
     if in_first {
         cov.hit("probe_knot_in_first_piece_domain");
@@ -1213,7 +1284,7 @@ impl World for C11 {
         format!("{class}/{}", scn.kind.name())
     }
     fn rule(&self) -> String {
-        "Each run: one seeded piecewise function (17 integrable piece types: Poly0..7, Log<Poly0..8>; 1-10 pieces; integer, dyadic, duplicate and random breakpoints, positive for logs), a knot (70% inside the first piece's domain), and a seeded schedule of pull/cancel/restart events over a live Segment::integral_iter (by value) and a live Segment::integral_iter_ref (by reference), both fed by simulator-owned counting iterators. Per pull: exactly one input consumed, output end = input end, output bit-identical to Piecewise::integral's piece. Then integral(k0) and indefinite() are checked at the knot, on both sides of every interior breakpoint and at sampled points against the closed-form integral threaded piece by piece in double-double. distinct = distinct (piece type, piece count, tie pattern of breakpoints, knot position relative to the breakpoints, full schedule); non-trivial = at least 2 pieces.".into()
+        "Each run: one seeded piecewise function (17 integrable piece types: Poly0..7, Log<Poly0..8>; 1-10 pieces; integer, dyadic, duplicate and random breakpoints, positive for logs), a knot (70% inside the first piece's domain), and a seeded schedule of pull/cancel/restart events over a live Segment::integral_iter (by value) and a live Segment::integral_iter_ref (by reference), both fed by simulator-owned counting iterators. First each iterator kind is collected fresh and whole: by-value and by-reference results must be bit-identical (the property's sentence) and agree by value, within twice the tolerance, with Piecewise::integral. Per pull of a live iterator (including a third one threaded from another knot, in a third of the runs): exactly one input consumed, output end = input end, output bit-identical to what the fresh iterator of that kind yielded, whatever the interleaving, cancellations and restarts; whole-sequence consumer methods (fold, count, last, nth) likewise. Then integral(k0) and indefinite() are checked at the knot, on both sides of every interior breakpoint and at sampled points against the closed-form integral threaded piece by piece in double-double. distinct = distinct (piece type, piece count, tie pattern of breakpoints, knot position relative to the breakpoints, full schedule); non-trivial = at least 2 pieces.".into()
     }
     fn assumptions(&self) -> Vec<String> {
         vec![
